@@ -233,6 +233,11 @@ struct qtmd_stream *qtmd_init(struct mspack_system *system,
   qtm->bits_left = 0;
   qtm->bit_buffer = 0;
 
+  /* a match may refer back to before the first byte of the stream:
+   * give that history a defined content instead of whatever the
+   * allocator returned */
+  memset(qtm->window, 0, (size_t) window_size);
+
   /* initialise arithmetic coding models
    * - model 4    depends on window size, ranges from 20 to 24
    * - model 5    depends on window size, ranges from 20 to 36
